@@ -31,24 +31,28 @@ type edit struct {
 }
 
 type report struct {
-	Repo          string              `json:"repo"`
-	MutexField    string              `json:"env_mutex_field"`
-	MutexTypes    int                 `json:"mutex_types_rewritten"`
-	AccessProbes  int                 `json:"access_probes_inserted"`
-	GoStmts       int                 `json:"go_statements_rewritten"`
-	Selects       int                 `json:"reflect_select_calls_rewritten"`
-	Unrewritten   []string            `json:"unrewritten_sync_sites"`
-	Files         map[string]int      `json:"edits_per_file"`
-	AccessSites   []string            `json:"access_sites"`
-	FreshSkipped  []string            `json:"fresh_local_accesses_skipped"`
-	Problems      []string            `json:"problems"`
-	overlay       map[string]string
+	Repo         string         `json:"repo"`
+	MutexField   string         `json:"env_mutex_field"`
+	MutexTypes   int            `json:"mutex_types_rewritten"`
+	AccessProbes int            `json:"access_probes_inserted"`
+	GoStmts      int            `json:"go_statements_rewritten"`
+	Selects      int            `json:"reflect_select_calls_rewritten"`
+	Unrewritten  []string       `json:"unrewritten_sync_sites"`
+	Files        map[string]int `json:"edits_per_file"`
+	AccessSites  []string       `json:"access_sites"`
+	FreshSkipped []string       `json:"fresh_local_accesses_skipped"`
+	Problems     []string       `json:"problems"`
+	overlay      map[string]string
 }
 
 func main() {
-	repo := flag.String("repo", "/repo", "repository root")
+	repo := flag.String("repo", "/repo", "repository tree to read")
+	target := flag.String("target", "", "path under which the go tool sees the module (default: same as -repo); when it differs, every source file of -repo is overlaid onto it, so a scratch worktree can be checked without touching the module directory")
 	out := flag.String("out", "", "scratch output directory")
 	flag.Parse()
+	if *target == "" {
+		*target = *repo
+	}
 	if *out == "" {
 		fmt.Fprintln(os.Stderr, "verifgen: -out required")
 		os.Exit(2)
@@ -58,6 +62,25 @@ func main() {
 		fmt.Fprintln(os.Stderr, "verifgen:", err)
 		os.Exit(2)
 	}
+	plain := map[string]string{}
+	if *target != *repo {
+		// identity overlay of the whole alternative tree; the rewritten env/vm files win
+		if err := identityOverlay(*repo, *target, plain); err != nil {
+			fmt.Fprintln(os.Stderr, "verifgen:", err)
+			os.Exit(2)
+		}
+		re := map[string]string{}
+		for k, v := range plain {
+			re[k] = v
+		}
+		for k, v := range rep.overlay {
+			rel, _ := filepath.Rel(*repo, k)
+			re[filepath.Join(*target, rel)] = v
+		}
+		rep.overlay = re
+	}
+	pv, _ := json.MarshalIndent(map[string]any{"Replace": plain}, "", " ")
+	os.WriteFile(filepath.Join(*out, "overlay.plain.json"), pv, 0o644)
 	ov, _ := json.MarshalIndent(map[string]any{"Replace": rep.overlay}, "", " ")
 	if err := os.WriteFile(filepath.Join(*out, "overlay.json"), ov, 0o644); err != nil {
 		fmt.Fprintln(os.Stderr, "verifgen:", err)
@@ -498,4 +521,32 @@ func (rw *rewriter) apply() []byte {
 	}
 	out = append(out, src[pos:]...)
 	return out
+}
+
+// identityOverlay maps every non-test Go file of the module at target onto the
+// file of the same relative path in repo (deleted there: removed; added there:
+// added).
+func identityOverlay(repo, target string, ov map[string]string) error {
+	walk := func(root string, fn func(rel string)) error {
+		return filepath.Walk(root, func(p string, info os.FileInfo, err error) error {
+			if err != nil {
+				return err
+			}
+			if info.IsDir() {
+				if n := info.Name(); n == ".git" || n == "_example" || n == "testdata" {
+					return filepath.SkipDir
+				}
+				return nil
+			}
+			if strings.HasSuffix(p, ".go") && !strings.HasSuffix(p, "_test.go") {
+				rel, _ := filepath.Rel(root, p)
+				fn(rel)
+			}
+			return nil
+		})
+	}
+	if err := walk(target, func(rel string) { ov[filepath.Join(target, rel)] = "" }); err != nil {
+		return err
+	}
+	return walk(repo, func(rel string) { ov[filepath.Join(target, rel)] = filepath.Join(repo, rel) })
 }
